@@ -136,8 +136,9 @@ def ok_err_blocks(fn, call):
         return None
     ok, err = set(), set()
     for (sb, ok_t, err_t, other, adt) in sp.switches:
-        ok |= ok_t
-        err |= err_t
+        # `if let Err(e) = x` lists only arm 1: the Ok side is `otherwise` (and vice versa)
+        ok |= ok_t if ok_t else ({other} if err_t else set())
+        err |= err_t if err_t else ({other} if ok_t else set())
     return ok, err
 
 
